@@ -113,8 +113,19 @@ ClashFaults(s) ==
       <<e, l1, l2>> \in {<<e, l1, l2>> \in (1..Len(s)) \X (1..8) \X (1..8) :
                             /\ l1 < l2 /\ l2 <= Len(s[e].locals)
                             /\ s[e].locals[l1].n # "" /\ s[e].locals[l2].n # "" /\ s[e].locals[l1].n # s[e].locals[l2].n
-                            /\ s[e].locals[l1].lk \in {"param", "inst", "invoke", "lpad"}
-                            /\ s[e].locals[l2].lk \in {"inst", "invoke", "lpad"}} }
+                            /\ s[e].locals[l1].lk \in {"param", "inst", "invoke", "lpad", "block"}
+                            /\ s[e].locals[l2].lk \in {"param", "inst", "invoke", "lpad", "block"}} }
+
+\* references to locals and globals redirected to the quoted numeral "0": a NAME that must not be
+\* confused with the unnamed value %0 / @0 that the source may contain
+QuotedFaults(s) ==
+  LET top == { [s EXCEPT ![e] = [@ EXCEPT !.refs = SetRefTo(@, r, UndefQ)]] :
+                 <<e, r>> \in {<<e, r>> \in (1..Len(s)) \X (1..8) : r <= Len(s[e].refs) /\ RefClass(s[e].refs[r].rk) = "glob"} }
+      loc == { [s EXCEPT ![e] = [@ EXCEPT !.locals = [@ EXCEPT ![l] = [@ EXCEPT !.refs = SetRefTo(@, r, UndefQ)]]]] :
+                 <<e, l, r>> \in {<<e, l, r>> \in (1..Len(s)) \X (1..8) \X (1..4) :
+                                    l <= Len(s[e].locals) /\ r <= Len(s[e].locals[l].refs)
+                                    /\ RefClass(s[e].locals[l].refs[r].rk) \in {"glob", "local"}} }
+  IN top \cup loc
 
 \* permutations of the top-level entities that keep the relative order of unnamed globals and of
 \* entities with the same key (attribute groups / named metadata merged in textual order);
@@ -135,12 +146,12 @@ Perms(s) == { [x \in 1..Len(s) |-> s[p[x]]] : p \in {q \in CandPerms(Len(s)) : P
 PatternSet == {Patterns[k] : k \in 1..Len(Patterns)}
 AllSources ==
   CASE SourceSet = "patterns" -> PatternSet
-    [] SourceSet = "faults"   -> UNION {RefFaults(s) \cup DupFaults(s) \cup ClashFaults(s) : s \in PatternSet}
+    [] SourceSet = "faults"   -> UNION {RefFaults(s) \cup DupFaults(s) \cup ClashFaults(s) \cup QuotedFaults(s) : s \in PatternSet}
     [] SourceSet = "perms"    -> UNION {Perms(s) : s \in PatternSet}
     [] SourceSet = "faultperms" -> UNION {UNION {RefFaults(t) \cup DupFaults(t) \cup ClashFaults(t) : t \in Perms(s)} : s \in {u \in PatternSet : Len(u) <= 5}}
     [] SourceSet = "alias"    -> {AliasPatterns[k] : k \in 1..Len(AliasPatterns)}
                                   \cup UNION {RefFaults(AliasPatterns[k]) : k \in 1..Len(AliasPatterns)}
-    [] SourceSet = "all"      -> PatternSet \cup UNION {RefFaults(s) \cup DupFaults(s) \cup ClashFaults(s) : s \in PatternSet}
+    [] SourceSet = "all"      -> PatternSet \cup UNION {RefFaults(s) \cup DupFaults(s) \cup ClashFaults(s) \cup QuotedFaults(s) : s \in PatternSet}
                                   \cup {AliasPatterns[k] : k \in 1..Len(AliasPatterns)}
 
 ----------------------------------------------------------------------------
